@@ -33,6 +33,9 @@ type c08Case struct {
 	SameNames      bool              `json:"same_names,omitempty"` // all chains carry the same name
 	// Earlier: requests sent to the SAME filter instance before this one (the verdict must not depend on them)
 	Earlier []map[string]string `json:"earlier_requests,omitempty"`
+	// Rules: "" no trigger rules | "all" rules under which the request path (/x) is triggered | "none" rules that
+	// exclude it (then the request is allowed whatever the chains say)
+	Rules string `json:"trigger_rules,omitempty"`
 }
 
 // countingStore counts store calls (an OIDC filter that is reached writes its login state).
@@ -102,6 +105,9 @@ func c08RefMatch(m string, h map[string]string) bool {
 
 // returns status code, which filter kind answered ('a' = all allowed, 'd', 'o', '-' = no chain), oidc filters reached
 func c08Ref(c c08Case) (codes.Code, byte, int64) {
+	if c.Rules == "none" {
+		return codes.OK, '-', 0 // not triggered: allowed, no chain is consulted
+	}
 	for _, ch := range c.Chains {
 		if !c08RefMatch(ch.Match, c.Headers) {
 			continue
@@ -133,6 +139,13 @@ type c08Instance struct {
 
 func c08NewInstance(c c08Case) c08Instance {
 	cfg := &configv1.Config{AllowUnmatchedRequests: c.AllowUnmatched}
+	switch c.Rules {
+	case "all":
+		cfg.TriggerRules = []*configv1.TriggerRule{{IncludedPaths: []*configv1.StringMatch{{MatchType: &configv1.StringMatch_Prefix{Prefix: "/"}}}},
+			{ExcludedPaths: []*configv1.StringMatch{{MatchType: &configv1.StringMatch_Exact{Exact: "/healthz"}}}}}
+	case "none":
+		cfg.TriggerRules = []*configv1.TriggerRule{{ExcludedPaths: []*configv1.StringMatch{{MatchType: &configv1.StringMatch_Prefix{Prefix: "/x"}}}}}
+	}
 	for i, ch := range c.Chains {
 		fc := ch.proto(i)
 		if c.SameNames {
@@ -322,6 +335,29 @@ func c08Run(run *ev.Run) {
 		}
 	})
 	run.Extra["odd_header_maps"] = len(odd)
+	// trigger rules next to the chains: rules under which the request is triggered change nothing, rules that exclude
+	// its path allow it without consulting any chain - for all lists of up to two chains x both flags
+	par.For(1+n+n*n, run.Expired, func(i int) {
+		var cl []c08Chain
+		switch {
+		case i == 0:
+		case i <= n:
+			cl = []c08Chain{chains[i-1]}
+		default:
+			cl = []c08Chain{chains[(i-1-n)/n], chains[(i-1-n)%n]}
+		}
+		for _, rules := range []string{"all", "none"} {
+			for _, au := range []bool{false, true} {
+				inst := c08NewInstance(c08Case{Chains: cl, AllowUnmatched: au, Rules: rules})
+				var earlier []map[string]string
+				for _, h := range headers {
+					c08CheckOn(run, inst, c08Case{Chains: cl, AllowUnmatched: au, Headers: h, Earlier: earlier, Rules: rules})
+					earlier = append(earlier, h)
+					atomic.AddInt64(&evals, 1)
+				}
+			}
+		}
+	})
 	// length-4 lists over a reduced per-chain set (thorough)
 	if run.Tier == "thorough" {
 		red := []c08Chain{{"none", "a"}, {"none", "d"}, {"eq", "ao"}, {"eq", "a"}, {"prefix", "da"}, {"prefix-u", "oa"}, {"EQ", "d"}, {"prefix", "a"}}
